@@ -195,6 +195,7 @@ class NumNS:
         self.inputs = {}
         self.recorded = {}
         self._cnt = {}
+        self.scale = 1.0
 
     def record(self, prefix, value):
         """native counterpart of an opaque tensor: stubs record what the real dependency returned, in call order"""
@@ -212,6 +213,8 @@ class NumNS:
             grp = d if isinstance(d, (list, tuple)) else [d]
             shape.append(builtins.int(np.prod([self._c(s) for s in grp])) if grp else 1)
         a = self.rng.standard_normal(shape)
+        # odd seeds draw small-norm data, multiples of 4 large-norm data (defects that depend on ||X|| vs 1 need this)
+        a = a * getattr(self, "scale", 1.0)
         if str(dtype).startswith("complex"):
             a = a + 1j * self.rng.standard_normal(shape)
         a = a.astype(dtype)
